@@ -934,3 +934,166 @@ Proof.
   intros fz t. unfold python_to_cqltype. rewrite <- (app_nil_r (to_py fz t)).
   rewrite shape_print by apply shape_ty. simpl. apply app_nil_r.
 Qed.
+
+(* ------------------------------------------------------------------ _strip_frozen_from_python *)
+Inductive Splice : list pyt -> list pyt -> Prop :=
+| Sp_nil : Splice [] []
+| Sp_frozen : forall inner rest r, Splice (inner ++ rest) r -> Splice (PStr frozen_kw :: PList inner :: rest) r
+| Sp_str : forall s rest r, str_eqb s frozen_kw = false -> Splice rest r -> Splice (PStr s :: rest) (PStr s :: r)
+| Sp_list : forall i rest r, Splice rest r -> Splice (PList i :: rest) (PList i :: r).
+
+Lemma pyts_size_app : forall a b, pyts_size (a ++ b) = pyts_size a + pyts_size b.
+Proof. induction a; intros; simpl; auto. unfold pyts_size in *. simpl. rewrite IHa. lia. Qed.
+
+Lemma splice_complete : forall l r, Splice l r -> forall fuel, pyts_size l < fuel -> splice fuel l = Some r.
+Proof.
+  intros l r H. induction H; intros fuel Hf; (destruct fuel as [|f]; [lia|]); simpl.
+  - reflexivity.
+  - try rewrite str_eqb_refl. apply IHSplice. rewrite pyts_size_app. unfold pyts_size in *. simpl in *. lia.
+  - rewrite H. rewrite IHSplice; auto. unfold pyts_size in *. simpl in *. lia.
+  - rewrite IHSplice; auto. unfold pyts_size in *. simpl in *. lia.
+Qed.
+
+Fixpoint tp1 (t : ty) : list pyt :=
+  match t with
+  | TSimple s => [PStr (cql_simple s)]
+  | TList a => [PStr (lit "list"); PList (to_py true a)]
+  | TSet a => [PStr (lit "set"); PList (to_py true a)]
+  | TMap k v => [PStr (lit "map"); PList (to_py true k ++ to_py true v)]
+  | TTuple ts => [PStr (lit "tuple"); PList (flat_map (to_py true) ts)]
+  | TUdt _ name _ _ => [PStr name]
+  | TVector a d => [PStr (lit "vector"); PList (to_py true a ++ [PStr d])]
+  | TFrozen a => tp1 a
+  | TReversed a => tp1 a
+  end.
+
+Lemma simple_not_frozen : forall s, str_eqb (cql_simple s) frozen_kw = false.
+Proof. destruct s; reflexivity. Qed.
+
+Lemma splice_ty : forall t, wf_cql t = true -> forall rest r, Splice rest r -> Splice (to_py true t ++ rest) (tp1 t ++ r).
+Proof.
+  intros t. induction t using ty_ind2; intros Hwf rest r Hr; cbn [to_py tp1 app].
+  - apply Sp_str; auto using simple_not_frozen.
+  - apply Sp_str; [reflexivity|]. apply Sp_list. assumption.
+  - apply Sp_str; [reflexivity|]. apply Sp_list. assumption.
+  - apply Sp_str; [reflexivity|]. apply Sp_list. assumption.
+  - apply Sp_frozen. cbn [app]. apply Sp_str; [reflexivity|]. apply Sp_list. assumption.
+  - apply Sp_frozen. cbn [app]. apply Sp_str; auto.
+    simpl in Hwf. unfold wf_cql_name in Hwf. apply andb_true_iff in Hwf. destruct Hwf as [_ Hwf]. apply negb_true_iff in Hwf. assumption.
+  - apply Sp_str; [reflexivity|]. apply Sp_list. assumption.
+  - apply Sp_frozen. apply IHt; auto.
+  - apply IHt; auto.
+Qed.
+
+Lemma splice_seq : forall ts, forallb wf_cql ts = true -> forall rest r, Splice rest r ->
+  Splice (flat_map (to_py true) ts ++ rest) (flat_map tp1 ts ++ r).
+Proof.
+  induction ts as [|x l IH]; intros Hwf rest r Hr; [assumption|].
+  simpl in Hwf. apply andb_true_iff in Hwf. destruct Hwf. cbn [flat_map]. rewrite <- !app_assoc.
+  apply splice_ty; auto.
+Qed.
+
+Definition elemf (f : nat) (x : pyt) : option pyt :=
+  match x with
+  | PList i => match strip_py f i with Some i' => Some (PList i') | None => None end
+  | PStr s => Some (PStr s)
+  end.
+
+Lemma strip_unfold : forall f l, strip_py (S f) l =
+  match splice (S (pyts_size l)) l with None => None | Some l' => opt_all (map (elemf f) l') end.
+Proof. reflexivity. Qed.
+
+Lemma opt_all_app : forall {A} (a b : list (option A)) x y, opt_all a = Some x -> opt_all b = Some y -> opt_all (a ++ b) = Some (x ++ y).
+Proof.
+  induction a as [|[v|] a IH]; simpl; intros b x y Ha Hb.
+  - inversion Ha. assumption.
+  - destruct (opt_all a) eqn:E; [|discriminate]. inversion Ha. rewrite (IH b l y eq_refl Hb). reflexivity.
+  - discriminate.
+Qed.
+
+Fixpoint ht (t : ty) : nat :=
+  match t with
+  | TSimple _ => 0
+  | TList a | TSet a => S (ht a)
+  | TMap k v => S (Nat.max (ht k) (ht v))
+  | TTuple ts => S (fold_right (fun x n => Nat.max (ht x) n) 0 ts)
+  | TUdt _ _ _ _ => 0
+  | TVector a _ => S (ht a)
+  | TFrozen a | TReversed a => ht a
+  end.
+
+Definition strip_elems_ok (t : ty) : Prop :=
+  wf_cql t = true -> forall f, ht t <= f -> opt_all (map (elemf f) (tp1 t)) = Some (to_py false t).
+
+(* a sequence of types followed by plain words *)
+Lemma strip_seq : forall ts tail f, Forall strip_elems_ok ts -> forallb wf_cql ts = true ->
+  Forall (fun t => ht t <= f) ts ->
+  Forall (fun x => exists s, x = PStr s /\ str_eqb s frozen_kw = false) tail ->
+  strip_py (S f) (flat_map (to_py true) ts ++ tail) = Some (flat_map (to_py false) ts ++ tail).
+Proof.
+  intros ts tail f HP Hwf Hht Htail. rewrite strip_unfold.
+  assert (HS : Splice (flat_map (to_py true) ts ++ tail) (flat_map tp1 ts ++ tail)).
+  { apply splice_seq; auto. clear -Htail. induction Htail as [|x l [s [Hx Hs]] Hl IH]; [constructor|]. subst. apply Sp_str; auto. }
+  rewrite (splice_complete _ _ HS) by lia.
+  rewrite map_app. apply opt_all_app.
+  - clear HS Htail. induction HP as [|x l Hx Hl IH]; [reflexivity|].
+    simpl in Hwf. apply andb_true_iff in Hwf. destruct Hwf as [Hwx Hwl]. inversion Hht; subst.
+    cbn [flat_map]. rewrite map_app. apply opt_all_app; auto.
+  - clear -Htail. induction Htail as [|x l [s [Hx Hs]] Hl IH]; [reflexivity|]. subst. simpl. simpl in IH. rewrite IH. reflexivity.
+Qed.
+
+Lemma strip_one : forall a f, strip_elems_ok a -> wf_cql a = true -> ht a <= f ->
+  strip_py (S f) (to_py true a) = Some (to_py false a).
+Proof.
+  intros a f HP Hwf Hht.
+  pose proof (strip_seq [a] [] f) as H. cbn [flat_map] in H. rewrite !app_nil_r in H. apply H; auto.
+  simpl. rewrite Hwf. reflexivity.
+Qed.
+
+Lemma fold_max_le : forall ts f, fold_right (fun x n => Nat.max (ht x) n) 0 ts <= f -> Forall (fun t => ht t <= f) ts.
+Proof. induction ts; intros f H; constructor; simpl in H; [lia|apply IHts; lia]. Qed.
+
+Lemma strip_elems_ty : forall t, strip_elems_ok t.
+Proof.
+  intros t. induction t using ty_ind2; unfold strip_elems_ok; intros Hwf f Hf; cbn [tp1 to_py map elemf opt_all].
+  - reflexivity.
+  - simpl in Hf. destruct f as [|f]; [lia|]. rewrite strip_one; auto. lia.
+  - simpl in Hf. destruct f as [|f]; [lia|]. rewrite strip_one; auto. lia.
+  - simpl in Hf. destruct f as [|f]; [lia|]. simpl in Hwf. apply andb_true_iff in Hwf. destruct Hwf as [Hk Hv].
+    pose proof (strip_seq [t1; t2] [] f) as H. cbn [flat_map] in H. rewrite !app_nil_r in H. rewrite H; auto.
+    + simpl. rewrite Hk, Hv. reflexivity.
+    + repeat constructor; lia.
+  - simpl in Hf. destruct f as [|f]; [lia|]. simpl in Hwf.
+    pose proof (strip_seq ts [] f) as H0. rewrite !app_nil_r in H0. rewrite H0; auto.
+    apply fold_max_le. lia.
+  - reflexivity.
+  - simpl in Hf. destruct f as [|f]; [lia|]. simpl in Hwf. apply andb_true_iff in Hwf. destruct Hwf as [Ha Hd].
+    pose proof (strip_seq [t] [PStr d] f) as H. cbn [flat_map] in H. rewrite !app_nil_r in H. rewrite H; auto.
+    + simpl. rewrite Ha. reflexivity.
+    + repeat constructor; lia.
+    + constructor; [|constructor]. exists d. split; auto.
+      unfold wf_dim in Hd. destruct d as [|c d]; [discriminate|]. simpl in Hd.
+      apply andb_true_iff in Hd. destruct Hd as [Hd _]. apply andb_true_iff in Hd. destruct Hd as [Hd _].
+      simpl. destruct (Ascii.eqb_spec c "f"%char); auto. subst. discriminate.
+  - apply IHt; auto.
+  - apply IHt; auto.
+Qed.
+
+Lemma ht_le_size : forall t, ht t <= pyts_size (to_py true t).
+Proof.
+  intros t. induction t using ty_ind2; unfold pyts_size in *; cbn [ht to_py fold_right pyt_size]; try lia.
+  - rewrite fold_right_app. fold (pyts_size (to_py true t2)). 
+    change (fold_right (fun x n => pyt_size x + n) (pyts_size (to_py true t2)) (to_py true t1))
+      with (fold_right (fun x n => pyt_size x + n) (fold_right (fun x n => pyt_size x + n) 0 (to_py true t2)) (to_py true t1)).
+    rewrite <- fold_right_app. fold (pyts_size (to_py true t1 ++ to_py true t2)). rewrite pyts_size_app. unfold pyts_size. lia.
+  - assert (E : fold_right (fun x n => Nat.max (ht x) n) 0 ts <= fold_right (fun x n => pyt_size x + n) 0 (flat_map (to_py true) ts)).
+    { induction H as [|x l Hx Hl IH]; simpl; [lia|]. fold (pyts_size (to_py true x ++ flat_map (to_py true) l)).
+      rewrite pyts_size_app. unfold pyts_size. lia. }
+    lia.
+  - fold (pyts_size (to_py true t ++ [PStr d])). rewrite pyts_size_app. unfold pyts_size. simpl. lia.
+Qed.
+
+Theorem strip_to_py : forall t, wf_cql t = true -> strip_frozen_from_python (to_py true t) = Some (to_py false t).
+Proof.
+  intros t Hwf. unfold strip_frozen_from_python. apply strip_one; auto using strip_elems_ty, ht_le_size.
+Qed.
